@@ -168,7 +168,7 @@ func c02CheckGPT(r *hx.Result, c c02Case, d *dev.Device) {
 	}
 	var rt *gpt.Table
 	var err error
-	if p, pv, st := hx.Safe(func() { rt, err = gpt.Read(d, lss, lss) }); p {
+	if p, pv, st := hx.Safe(func() { rt, err = gpt.Read(d, lss, g.pss()) }); p {
 		r.Fail("gpt-read-panic", "gpt.Read panicked on bytes written by Write: %v [%s]", pv, st)
 		return
 	}
@@ -243,7 +243,7 @@ func c02CheckGPT(r *hx.Result, c c02Case, d *dev.Device) {
 		return
 	}
 	// second read is stable (generated GUIDs included)
-	rt2, err := gpt.Read(d, lss, lss)
+	rt2, err := gpt.Read(d, lss, g.pss())
 	if err != nil || rt2.GUID != rt.GUID || len(rt2.Partitions) != len(rt.Partitions) {
 		r.Fail("gpt-reread", "second gpt.Read differs: err=%v", err)
 		return
@@ -256,7 +256,7 @@ func c02CheckGPT(r *hx.Result, c c02Case, d *dev.Device) {
 	}
 	// partition.Read must report GPT, not the protective MBR
 	var pt partition.Table
-	if p, pv, st := hx.Safe(func() { pt, err = partition.Read(d, lss, lss) }); p {
+	if p, pv, st := hx.Safe(func() { pt, err = partition.Read(d, lss, g.pss()) }); p {
 		r.Fail("part-read-panic", "partition.Read panicked: %v [%s]", pv, st)
 		return
 	}
